@@ -4127,7 +4127,9 @@ EGLPNUM_TYPENAME_QSLIB_INTERFACE void EGLPNUM_TYPENAME_QSerror_print (
 	{
 		EGioFile_t*out = EGioOpenFILE(f);
 		EGLPNUM_TYPENAME_ILLformat_error_print (out, error);
-		EGioClose(out);
+		/* the stream belongs to the caller: release the wrapper only */
+		EGioFlush(out);
+		free(out);
 	}
 }
 
